@@ -108,6 +108,28 @@ static void over_identity(vh::Rng & rng, unsigned nboxes)
             }
             handed.min = typename field_t::coordinate_t(lo);
             handed.max = typename field_t::coordinate_t(hi);
+            if (b % 8 == 7) {
+                // ... the scalar being of ANOTHER arithmetic type than the coordinate's, as in `{{1}, {5}}` for a box of
+                // longs or doubles (small integers, exact in every type involved)
+                const int ilo = 1 + (int)rng.below(4), ihi = ilo + (int)rng.below(6);
+                for (std::size_t k = 0; k < N; ++k) {
+                    cfg.min[k] = (V)ilo;
+                    cfg.max[k] = (V)ihi;
+                }
+                if constexpr (std::is_same_v<V, int>) {
+                    handed.min = typename field_t::coordinate_t((short)ilo);
+                    handed.max = typename field_t::coordinate_t((unsigned char)ihi);
+                } else if constexpr (std::is_floating_point_v<V>) {
+                    handed.min = typename field_t::coordinate_t(ilo);
+                    if constexpr (std::is_same_v<V, float>)
+                        handed.max = typename field_t::coordinate_t((long)ihi);
+                    else
+                        handed.max = typename field_t::coordinate_t((float)ihi);
+                } else {
+                    handed.min = typename field_t::coordinate_t(ilo);
+                    handed.max = typename field_t::coordinate_t(ihi);
+                }
+            }
         }
         vh::set_case("%s box#%u", name.c_str(), b);
         // two out of three fields reach their box by ASSIGNMENT over the previous iteration's field (another box):
